@@ -183,6 +183,12 @@ class SciPySampler(Sampler):
                 ).reshape((realization_count, perturbation_count, sample_dim)),
             )
 
+        if sample_dim == 0:
+            # No variables are handled by this sampler, there is nothing to draw:
+            return np.zeros(
+                (realization_count, perturbation_count, 0), dtype=np.float64
+            )
+
         if self._method == "sobol":
             with warnings.catch_warnings():
                 warnings.simplefilter("ignore")
